@@ -420,6 +420,10 @@ def gen_valid_session(rng, nrec=None, max_rec=300, boundary=False, small_numbers
         if small_numbers:       # C14: the five-digit wrap is C13's matter
             nums = (rng.randint(0, 99998), rng.randint(0, 99998))
         recs.append(["w", gen_record(rng, w, d, vel, nums)])
+    if rng.random() < 0.12:
+        # the box assigned after the last record and before close (it is written BY close, whatever was declared when):
+        # seed C13-14 — the box line written as soon as the declared count is reached
+        return setters + recs + [gen_box(rng), ["x"]]
     return setters + recs + [["x"]]
 
 
@@ -832,6 +836,23 @@ def read_back_dispatch(path):
             return {"via": "open_coordinate_file", "records": n}
         except Exception:   # noqa: BLE001
             pass
+        # ... and through a file object the CALLER opened (`GroFile(open(path))`): the same checks apply (seed C14-13: the
+        # rejection re-raised only for files the constructor opened itself)
+        fh = None
+        try:
+            from gaddlemaps.parsers import GroFile
+            fh = open(path)
+            r = GroFile(fh)
+            n = len(r.readlines())
+            return {"via": "GroFile(file object)", "records": n}
+        except Exception:   # noqa: BLE001
+            pass
+        finally:
+            try:
+                if fh is not None:
+                    fh.close()
+            except Exception:   # noqa: BLE001
+                pass
     return None     # (SystemGro / System / Manager open coordinate files through the same dispatch)
 
 
